@@ -10,6 +10,7 @@ both.  Routes: label->target and target->labels dictionaries, FSA(), the free-gr
 sequences of every case pattern, built-in file and kbmag text / file (named routes whose meaning is the table in
 the text)."""
 import copy
+import json
 import multiprocessing as mp
 import os
 
@@ -76,15 +77,30 @@ def second_object(first, prov, ctx, labels):
     raise KeyError(prov)
 
 
-def replay_history(h, labels, battery=True):
+def render(h, al):
+    """the history with every label rendered through the alphabet (fsa_common.ALPHABETS)"""
+    if al is None:
+        return h["steps"]
+    out = []
+    for st in h["steps"]:
+        st = dict(st, act=fc.tr_act(al, st["act"]))
+        for k in ("E", "oE"):
+            st[k] = fc.tr_edges(al, st[k])
+        out.append(st)
+    return out
+
+
+def replay_history(h, labels, battery=True, al=None):
     """returns None or (actions so far, clause, detail)"""
-    steps = h["steps"]
+    steps = render(h, al)
+    if al is not None:
+        labels = [al[l] for l in labels]
     objs = {}
     ctx = {}
     done = []
     for i, st in enumerate(steps):
         act = st["act"]
-        done.append(c09.act_str(act))
+        done.append((fc.alphabet_tag(al) if i == 0 else "") + c09.act_str(h["steps"][i]["act"]))
         cur = st["cur"]
         try:
             if i == 0:
@@ -130,22 +146,25 @@ def replay_history(h, labels, battery=True):
 
 
 def replay_chunk(args):
-    hists, labels, battery_every = args
+    hists, labels, battery_every, alphabets = args
     viol = []
     per_action = {}
     n_steps = 0
     for j, h in enumerate(hists):
-        n_steps += len(h["steps"])
-        for st in h["steps"]:
+        n_steps += len(h[1]["steps"])
+        for st in h[1]["steps"]:
             a = st["act"]["a"] + (":" + st["act"]["prov"] if st["act"]["a"] == "second" else "")
             per_action[a] = per_action.get(a, 0) + 1
-        bad = replay_history(h, labels, battery=(j % battery_every == 0))
+        # (index in the emitted order, history): the alphabet cycles with the index, the battery with index // 3
+        idx, h = h
+        al = fc.ALPHABETS[idx % len(fc.ALPHABETS)] if alphabets else None
+        bad = replay_history(h, labels, battery=((idx // 3) % battery_every == 0), al=al)
         if bad and len(viol) < 20:
             viol.append(bad)
     return n_steps, viol, per_action
 
 
-def prepare(run, name, verts, labels, routes, provs, kinds, budget, max_build=0, named=None):
+def prepare(run, name, verts, labels, routes, provs, kinds, budget, max_build=0, named=None, alphabets=False):
     """one TLC job: (name, module path, cfg text, description)"""
     consts = dict(Verts=set(verts), Labels=set(labels), MaxBuildEdges=max_build, Routes=set(routes), Provs=set(provs),
                   EditKinds=set(kinds), Budget=budget)
@@ -162,7 +181,8 @@ def prepare(run, name, verts, labels, routes, provs, kinds, budget, max_build=0,
     else:
         consts["Named"] = set()
     c = core.cfg(init="PairInit", next_="PairNext", constants=consts, invariants=INVARIANTS, extra=extra)
-    desc = dict(run=name, routes=sorted(routes), second_object=sorted(provs), edits=sorted(kinds), budget=budget)
+    desc = dict(run=name, routes=sorted(routes), second_object=sorted(provs), edits=sorted(kinds), budget=budget,
+                alphabets=[fc.alphabet_tag(a) or "letters" for a in fc.ALPHABETS] if alphabets else ["as written"])
     return name, module, c, sorted(labels), desc
 
 
@@ -189,12 +209,14 @@ def tlc_all(run, jobs):
 
 def replay(run, job, r, battery_every):
     name, labels, desc = job[0], job[3], job[4]
-    hists = r.emits
+    # canonical order (the alphabet of a history and whether it ends with the query battery go by position)
+    hists = sorted(r.emits, key=lambda h: json.dumps([st["act"] for st in h["steps"]], sort_keys=True))
     if not hists:
         raise core.MachineryFailure("FSAPair.tla (%s) emitted no history" % name)
     n = min(core.NCPU, len(hists))
     with mp.get_context("fork").Pool(n) as pool:
-        outs = pool.map(replay_chunk, [(hists[i::n], labels, battery_every) for i in range(n)])
+        ih = list(enumerate(hists))
+        outs = pool.map(replay_chunk, [(ih[i::n], labels, battery_every, bool(desc["alphabets"] != ["as written"])) for i in range(n)])
     steps = 0
     for (k, viol, per_action) in outs:
         steps += k
@@ -242,14 +264,14 @@ def run(run):
     if quick:
         jobs.append(prepare(run, "dict", [0, 1], ["a", "b"], {"empty", "graph", "out"},
                             {"same_input", "graph_view", "out_view"}, ALL_KINDS - {"add_two_edges", "delete_vertices"}, 1,
-                            max_build=2))
+                            max_build=2, alphabets=True))
     else:
         jobs.append(prepare(run, "dict", [0, 1], ["a", "b"], {"empty", "graph", "out"},
                             {"same_input", "graph_view", "out_view", "deepcopy", "recurrent_copy", "rename_copy"},
-                            ALL_KINDS, 1, max_build=3))
+                            ALL_KINDS, 1, max_build=3, alphabets=True))
         jobs.append(prepare(run, "dict2", [0, 1], ["a", "b"], {"empty", "graph", "out"},
                             {"same_input", "out_view"},
-                            {"add_edge", "add_edge_list", "delete_vertex", "rename_inplace"}, 2, max_build=1))
+                            {"add_edge", "add_edge_list", "delete_vertex", "rename_inplace"}, 2, max_build=1, alphabets=True))
     jobs.append(prepare(run, "free", ["", "a", "A", "b", "B"], ["a", "A", "b", "B"], {"free"},
                         {"same_input"} if quick else {"same_input", "out_view", "graph_view"}, light, 1))
     named = named_routes(run)
